@@ -305,7 +305,8 @@ class C01(e1.E1Check):
                 adv_empty = adv_empty or (int(arr.sum()) == 0 if arr.dtype == np.bool_ else arr.size == 0)
         adv_2d = any(isinstance(x, (list, tuple)) and len(x) > 1 and x[0] == "a" and x[1] and isinstance(x[1][0], list)
                      for x in (sl[1:] if isinstance(sl, (list, tuple)) and sl and sl[0] == "t" else [sl]))
-        sig = {"items": "+".join(kinds), "adv_empty": adv_empty, "adv_2d": adv_2d}
+        sig = {"items": "+".join(kinds), "adv_empty": adv_empty, "adv_2d": adv_2d,
+               "long_record": any("long-contents" in n for n in (names or []))}
         if "opt" in kinds and len(kinds) > 1:
             # does the part of the slice before the option-type index select no rows / an option-type row?
             items = sl[1:]
